@@ -19,6 +19,7 @@ from .values import (
     VGlobal,
     VInt,
     VIter,
+    VItState,
     VOpaque,
     VRange,
     VRef,
@@ -45,6 +46,19 @@ def eval_call(ex, e: ast.Call, st: State):
     if isinstance(e.func, ast.Name) and e.func.id in ("all", "any", "tuple", "sum", "list", "set", "frozenset", "next") and e.args:
         if isinstance(e.args[0], (ast.GeneratorExp, ast.ListComp)):
             return comprehension_call(ex, e.func.id, e, st)
+    if isinstance(e.func, ast.Name) and e.func.id == "next" and len(e.args) == 1 and isinstance(e.args[0], ast.Name) and isinstance(st.env.get(e.args[0].id), VItState):
+        # next(it) on an iterator held in a local name: yields the next item and advances, or raises StopIteration when exhausted
+        name = e.args[0].id
+        it = st.env[name]
+        out = []
+        for more, bs in ex.split(st, it.pos < it.seq.n):
+            if more:
+                bs.env[name] = VItState(it.seq, z3.simplify(it.pos + 1))
+                out.append(Res("val", ex._elem(z3.Select(it.seq.arr, it.pos), it.seq.ek, it.seq.ecls, bs), bs))
+            else:
+                bs.trace.append("StopIteration")
+                out.append(Res("raise", "StopIteration", bs))
+        return out
     handler = None
     for table in (ex.local_calls(), spec.calls, spec.inline):
         if text in table:
@@ -524,6 +538,12 @@ def b_set(ex, st, args, kw):
     return [Res("val", VRef(r, "set", ("set", "ref")), st)]
 
 
+def b_iter(ex, st, args, kw):
+    """iter(x) over a tuple / sequence value: a fresh iterator positioned at the start."""
+    v = args[0]
+    return [Res("val", VItState(arith.as_seq(ex.to_seq_value(v, st)), z3.IntVal(0)), st)]
+
+
 def b_range(ex, st, args, kw):
     if len(args) == 1:
         return [Res("val", VRange(0, args[0]), st)]
@@ -594,6 +614,7 @@ GLOBAL_BUILTINS = {
     "list": b_list,
     "set": b_set,
     "range": b_range,
+    "iter": b_iter,
     "zip": b_zip,
     "enumerate": b_enumerate,
     "reversed": b_reversed,
